@@ -21,7 +21,9 @@ def program_spec(draw):
     # stated temperature; the programme takes over from step 1)
     return {"type": kind, "t_end": draw(gen.uniform(273.0, 400.0)), "deg": draw(st.integers(0, 2)),
             "w": draw(gen.uniform(-0.4, 0.4)), "c1": draw(gen.uniform(-1.0, 1.0)), "c0": draw(gen.uniform(40.0, 120.0)),
-            "offset": draw(st.one_of(st.just(0.0), gen.uniform(-15.0, 15.0)))}
+            "offset": draw(st.one_of(st.just(0.0), gen.uniform(-15.0, 15.0))),
+            # an extra (highest-order) coefficient: cubic polynomial / quadratic inner polynomial of exp and log programmes
+            "w3": draw(st.one_of(st.just(0.0), gen.uniform(-0.1, 0.1)))}
 
 
 def materialise_program(spec, t_start, hours):
@@ -32,21 +34,30 @@ def materialise_program(spec, t_start, hours):
     h = max(hours, 1e-300)
     t_end = spec["t_end"]
     t_start = min(400.0, max(273.0, t_start + spec.get("offset", 0.0)))
+    w3 = spec.get("w3", 0.0)
     if spec["type"] == "polynomial":
         if spec["deg"] == 0:
             co = [t_start]
         elif spec["deg"] == 1:
             co = [t_start, (t_end - t_start) / h]
         else:
-            c2 = spec["w"] * (t_end - t_start) / (h * h)
-            co = [t_start, (t_end - t_start) / h - c2 * h, c2]
+            # T = t_start + D (a1 s + a2 s^2 + a3 s^3), s = x/h, a1 + a2 + a3 = 1, |a2| <= 0.15, |a3| <= 0.1: monotone
+            d = t_end - t_start
+            a2, a3 = 0.375 * spec["w"], w3
+            co = [t_start, d * (1.0 - a2 - a3) / h, d * a2 / (h * h)] + ([d * a3 / h**3] if a3 else [])
     elif spec["type"] == "exponential":
+        # c0 exp(c1 + c2 x + c3 x^2) with c3 = w c2 / h: monotone from t_start to t_end
         c1 = spec["c1"]
-        co = [t_start / math.exp(c1), c1, math.log(t_end / t_start) / h]
+        w = 3.0 * w3
+        c2 = math.log(t_end / t_start) / (h * (1.0 + w))
+        co = [t_start / math.exp(c1), c1, c2] + ([w * c2 / h] if w else [])
     else:
+        # c0 ln(c1 + c2 x + c3 x^2)
         c0 = spec["c0"]
         c1 = math.exp(t_start / c0)
-        co = [c0, c1, (math.exp(t_end / c0) - c1) / h]
+        w = 3.0 * w3
+        c2 = (math.exp(t_end / c0) - c1) / (h * (1.0 + w))
+        co = [c0, c1, c2] + ([w * c2 / h] if w else [])
     return {"type": spec["type"], "coefficients": co}
 
 
